@@ -24,10 +24,12 @@ ALT = [['nil', 'zz_o'], ['nil', None], ['obj', None, 7], ['new', None, 8], ['str
 LATTICE = {
     'int': [0, 1, -1, 2 ** 31 - 1, -2 ** 31, 255, 256, -256, 65536],
     'uint': [0, 1, 2 ** 31 - 1, 2 ** 31, 2 ** 32 - 1, 0xff000000],
-    'fixed': [0, 256, 128, -256, 1, -1, 109025, 2 ** 31 - 1, -2 ** 31, 255, -255, 384, -384, 25600000],
+    'fixed': [0, 256, 128, -256, 1, -1, 109025, 2 ** 31 - 1, -2 ** 31, 255, -255, 384, -384, 25600000,
+              16777217, -16777217, 2 ** 30 + 1, 0x12345679],      # more than 24 significant bits (a C float has 24)
     'str': ['a', '', 'a, b', 'two words', 'é', '"quoted"', 'x' * 300, None],
     'fd': [0, 1, 9, 1023],
-    'array': [[], [0], [1], [-1, 2 ** 31 - 1], [1, 2, 3], [1, 2, 3, 4], list(range(10))],
+    'array': [[], [0], [1], [-1, 2 ** 31 - 1], [1, 2, 3], [1, 2, 3, 4], list(range(10)), list(range(256)), list(range(257)),
+              list(range(1000))],      # a message holds just under 4096 bytes
     'obj': [['obj', 'zz_o', 1], ['obj', 'zz_o', 0xff000000], ['obj', None, 3], ['nil', 'zz_o'], ['nil', None]],
     'new': [['new', 'zz_n', 2], ['new', None, 2], ['new', 'zz_n', 0xff000000], ['new', 'wl_callback', 4294967295]],
 }
